@@ -949,11 +949,11 @@ BINOP_CALLS = {'add': 'add', 'sub': 'sub', 'mul': 'mul', 'div': 'div', 'rem': 'r
 
 
 def norm_call(name, args, body=None, term=None):
-    if (name in TRANSPARENT or name.endswith('::clone')) and args:
+    if (name in TRANSPARENT or name.endswith(('::clone', '::deref', '::deref_mut'))) and args:
         return args[0]
     if name in UNWRAP and args:
         return ('unwrap', args[0])
-    if name in LEN and args:
+    if (name in LEN or (name.endswith('::len') and len(args) == 1)) and args:
         return ('len', args[0])
     if name in ('Result::branch', 'Option::branch') and args:
         return ('branch', args[0])
